@@ -353,3 +353,12 @@ Proof.
     apply (T'_none_iff array cfg N V tt pz M HN HV Hc It Nt Dt Rt Gt Lt St). apply Dt. exact Hw.
   - apply (pmem_none_iff buckets N V tp M HN Ip Np Dp Rp Lp Rm Hz Hi). apply Dp. exact Hw.
 Qed.
+
+(* ---- the visiting order: the pre-order of the forest of a table lists the keys in strictly increasing lexicographic order, a key before
+   its extensions -- the order of RecursiveInsert's merge of the sorted files.  With C03_trie_visit_is_build: the arrays are what visiting
+   the table's keys in sorted order builds. *)
+From Kenlm Require Import C03.TrieOrder.
+From Coq Require Import Sorted.
+Theorem C03_trie_visit_order_is_sorted : forall (V : Type) (dv : V) (t : list (list Z * V)), table_ok V t ->
+  StronglySorted klt (map fst (preorder V [] (of_table V dv t))).
+Proof. exact table_preorder_sorted. Qed.
